@@ -37,6 +37,11 @@ struct Uni {
     ranges: Vec<U256>,
 }
 
+/// XOR distance between a node's address and a record key, as the integer the store compares.
+pub fn distance_u256(me: &NetworkAddress, k: &libp2p::kad::RecordKey) -> U256 {
+    u256(&xor_distance(&me.as_bytes(), k.as_ref()))
+}
+
 fn u256(b: &U256Be) -> U256 {
     U256::from_be_bytes(*b)
 }
@@ -397,6 +402,14 @@ fn cleanup_threshold(run: &Run) {
                         let files: BTreeSet<String> = rig.listing().into_keys().collect();
                         if files != after {
                             run.violation("cleanup-exact", "files", format!("{n} records: after clean-up {} files for {} records", files.len(), after.len()), serde_json::json!({"engine":"bulk","records":n,"gap":gap}));
+                        }
+                        // what the clean-up removed is gone for readers too, what it kept reads back
+                        for (i, k) in all.iter().take(n).enumerate() {
+                            let readable = rig.get(k).is_some();
+                            let kept = after.contains(&hexkey(k));
+                            if readable != kept {
+                                run.violation("cleanup-exact", if readable { "removed-still-readable" } else { "kept-unreadable" }, format!("{n} records, range after rank {gap}: rank {i} is {} after the clean-up but {}", if kept { "held" } else { "not held" }, if readable { "readable" } else { "not readable" }), serde_json::json!({"engine":"bulk","records":n,"gap":gap,"rank":i}));
+                            }
                         }
                         drop(rig);
                         let _ = std::fs::remove_dir_all(&scratch);
